@@ -53,7 +53,8 @@ pub struct Report {
 }
 impl Report {
     pub fn new(check: &'static str, bound: &str) -> Self {
-        Report { check, bound: bound.to_owned(), cases: 0, nontrivial: 0, cex: 0, other: 0, panic_sites: BTreeMap::new(), samples: vec![] }
+        let bound = if std::env::var("VERIF_BOUNDED_DEEP").is_ok() && !bound.starts_with("DEEP") { format!("DEEP mode (thorough tier: the larger bounds of this stand-in, DESIGN.md section 6) -- {bound}") } else { bound.to_owned() };
+        Report { check, bound, cases: 0, nontrivial: 0, cex: 0, other: 0, panic_sites: BTreeMap::new(), samples: vec![] }
     }
     pub fn case(&mut self, nontrivial: bool, sample: impl FnOnce() -> String) {
         self.cases += 1;
